@@ -41,6 +41,17 @@ func main() {
 		checks.Smoke()
 		return
 	}
+	if len(os.Args) >= 2 && os.Args[1] == "race" {
+		budget := 120 * time.Second
+		if len(os.Args) >= 3 {
+			var secs int
+			fmt.Sscan(os.Args[2], &secs)
+			if secs > 0 {
+				budget = time.Duration(secs) * time.Second
+			}
+		}
+		os.Exit(checks.RacePass(budget))
+	}
 	if len(os.Args) >= 3 && os.Args[1] == "replay" {
 		os.Exit(checks.Replay(os.Args[2]))
 	}
